@@ -15,7 +15,7 @@ TRUST = ("Trusted base: CPython's ast as a faithful parse of what ships (files u
          "this file's reading of the property into clauses (DESIGN.md section 4). Decides the named structural clauses, not runtime values.")
 
 P = {
-    "C01": dict(text="Writer/reader table agreement for every serialised key of the daily, billing, hourly and CalTRACK-hourly families, state coverage of the predict path, re-serialisability of what the reader stores, sibling evaluators, coefficient-order conventions. Decides the structural necessary conditions of an exact round trip for all inputs; bit-identity of floating point is not decided.",
+    "C01": dict(text="Writer/reader table agreement for every serialised key of the daily, billing, hourly and CalTRACK-hourly families, state coverage of the predict path, re-serialisability of what the reader stores, sibling evaluators, coefficient-order conventions. The hourly round trip goes through the interpreted to_json / from_json wrappers (key order of the text matters where the reader reads a mapping by position). Decides the structural necessary conditions of an exact round trip for all inputs; bit-identity of floating point is not decided.",
                 tech="table agreement + value-flow (def-use) + symbolic round trip of the hourly and daily/billing state (to_dict and from_dict interpreted back to back on symbolic attributes, through the JSON data model; the reader works on its own copy of the document) + abstract interpretation of the sibling evaluators and kernel wrappers (own AST interpreter) + effect analysis over the class hierarchy (no mutable state kept on the class and written through an instance); helper-transparency pre-pass", ref="4/C01, 9.8, 9.9, 9.10"),
     "C02": dict(text="Effect (write-set) analysis of every predict path against the serialised/read attribute sets, aliasing of data-object lists into models, copy-before-mutate origin analysis of the data classes, ownership of private frames. Holds for all call histories because it is a property of the code's write set.",
                 tech="effect / origin analysis over the call graph (ast): predict-path write sets, copy-before-mutate of the data classes, in-place stores of fit/predict judged against the data object (a df accessor is fresh only where it hands out a copy); effect analysis over the class hierarchy for class-level mutable state", ref="4/C02, 9.10"),
@@ -27,19 +27,19 @@ P = {
                 tech="column-level information-flow (taint) analysis (ast, call graph) + one-row abstract interpretation of the daily usage roll-up + symbolic interpretation of interpolate() on recording values for every column order (explicit flow in the stored terms, implicit flow through the trie of explored tests) + interpretation of the daily calendar completion (date key classified)", ref="4/C05, 9.9, 9.10"),
     "C06": dict(text="Index provenance: the frame returned by predict is a reindex to / complement-concat of the data object's own index, sorted; no other row source. Clock normalisation: _get_dst_indices / correct_dst / _transform_dst interpreted from the AST over every day shape of the IANA database x position in the span (no raise, 24 slots per day, one value per timestamp, no shift). Numeric finiteness of the fitted model's output is not decided.",
                 tech="abstract interpretation (own AST interpreter): row-set frames for the daily/billing assembly, aggregation descriptions for billing predict, provenance values (incl. 1-d arrays, masks, insert, rolling means) over the exhaustive IANA day-shape domain for the DST helpers; def-use for the hourly reindex", ref="4/C06, 9.6, 9.8, 9.10"),
-    "C07": dict(text="Every path of the daily/billing _predict (masking on) passes an *effective* NaN store into observed for temperature-less rows of the frame that is concatenated into the result; stores into mask-selected temporaries are detected; predictions are produced only for rows that survived the completeness filters.",
-                tech="abstract interpretation of _initialize_data/_predict over row-set frames (stores reach the returned object, explored over flag/column/emptiness scenarios) + no-effect-store lint (ast)", ref="4/C07, 9.8"),
-    "C08": dict(text="Threshold/operator tables of the off-cycle and 50% rules, aggregation-kind typing (sum vs mean; /coverage only on sums), interval-spreading structure. Gaps must reach the coverage rule (the series handed to the down-sampling helper still carries its missing readings). The conservation sums themselves (pandas resampling arithmetic) are not decided.",
+    "C07": dict(text="Every path of the daily/billing _predict (masking on) passes an *effective* NaN store into observed for the rows of the re-appended frame whose temperature is missing or not finite (the masks are evaluated on one cell per case: NaN, +inf, -inf); stores into mask-selected temporaries are detected; predictions are produced only for rows that survived the completeness filters.",
+                tech="abstract interpretation of _initialize_data/_predict over row-set frames (stores reach the returned object, explored over flag/column/emptiness scenarios; store masks carry their meaning and are evaluated per cell state) + no-effect-store lint (ast)", ref="4/C07, 9.8"),
+    "C08": dict(text="Threshold/operator tables of the off-cycle and 50% rules (billing period length in whole days: the generic period spans the autumn clock change, d days and one hour), aggregation-kind typing (sum vs mean; /coverage only on sums), interval-spreading structure. Gaps must reach the coverage rule (the series handed to the down-sampling helper still carries its missing readings). The conservation sums themselves (pandas resampling arithmetic) are not decided.",
                 tech="symbolic interpretation of the daily data class's meter roll-up (what is handed to the down-sampling helper); one-row abstract interpretation of downsample_and_clean_daily_data (day of coverage c: kept, rescaled, warned); symbolic interpretation of as_freq on recording values compared with a reference term; interpretation of compute_minimum_granularity on threshold representatives; threshold tables (mask normalisation) + aggregation-kind tags (ast)", ref="4/C08, 9.8, 9.9"),
-    "C09": dict(text="A mean is never rescaled by coverage, the daily frame receives daily-kind columns, the 50% blanking rule (single definition of the invalid-day mask) and count definitions, sibling cross-check of the daily and billing implementations. merge_asof grouping and timezone arithmetic are not decided. The readings handed to the aggregation are the caller's temperature column, value-unchanged (R09.5); every calendar day of the span is a meter row, matched on year, month and day (R09.6).",
-                tech="abstract interpretation on recording frames: compute_temperature_features (aggregator and rename tables applied, grouping described) and _set_data (temperature column reaches the aggregation unaltered); kind tags per path (from the symbolic interpretation of as_freq) + structural patterns with metavariables + sibling cross-check (ast)", ref="4/C09, 9.8, 9.9"),
-    "C10": dict(text="Per-family criteria call lists are exactly the published set, each predicate is (quantity, operator, threshold) as published, every warning construction reaches the right sink (disqualification vs warnings), plumbing order of the two lists. day_counts is decided on a symbolic index (each period runs to the next timestamp); the remaining index arithmetic of the counts is not decided. The hourly classes hand the criteria the frame with filled-in values blanked and coverage flags of the blanked temperature.",
+    "C09": dict(text="A mean is never rescaled by coverage, the daily frame receives daily-kind columns, the 50% blanking rules of both routes decided by outcome (a day of coverage c on the sub-daily route; a meter day with n present / m absent readings among complete days on the hourly route, incl. the 23- and 25-hour days and a companion day without readings: blank iff at most half present, warned iff a day was blanked) and count definitions, sibling cross-check of the daily and billing implementations. merge_asof grouping and timezone arithmetic are not decided. The readings handed to the aggregation are the caller's temperature column, value-unchanged (R09.5); every calendar day of the span is a meter row, matched on year, month and day (R09.6).",
+                tech="abstract interpretation on recording frames: compute_temperature_features (aggregator and rename tables applied, grouping described) and _set_data (temperature column reaches the aggregation unaltered); one-row abstract interpretation of both routes of _compute_temperature_features in both siblings (generic row + typical row + companion row; call records of as_freq / compute_temperature_features); kind tags per path (from the symbolic interpretation of as_freq) + sibling cross-check (ast)", ref="4/C09, 9.8, 9.9"),
+    "C10": dict(text="Per-family criteria call lists are exactly the published set, each predicate is (quantity, operator, threshold) as published, every warning construction reaches the right sink (disqualification vs warnings), plumbing order of the two lists. day_counts is decided on a symbolic index (each period runs to the next timestamp); the remaining index arithmetic of the counts is not decided. The daily frame the criteria count days on has one row per calendar day: days already present are matched on the same year-month-day key on both sides when the missing days are put back (R10.5). The hourly classes hand the criteria the frame with filled-in values blanked and coverage flags of the blanked temperature.",
                 tech="exhaustiveness + sink classification (ast, call graph); scalar criteria interpreted on one representative per side of every threshold; valid-day totals, monthly-coverage criteria and the frame handed to the hourly criteria interpreted on recording columns / a state frame (own AST interpreter)", ref="4/C10, 9.8, 9.9"),
-    "C11": dict(text="The full_model kernel is abstractly evaluated under every total pre-order of its comparison operands and zero/non-zero flags: regime table, boundary continuity, sign conventions; closed forms of the branches; load decomposition uses the kernel's own vector. Where the smoothing fractions use up the whole gap the two shifted balance points are one value (no regime choice decided by rounding). Real-analysis facts about the smoothed curve are not decided.",
+    "C11": dict(text="The full_model kernel is abstractly evaluated under every total pre-order of its comparison operands and zero/non-zero flags: regime table, boundary continuity, sign conventions; closed forms of the branches; load decomposition uses the kernel's own vector (the stored coefficient vector is a mutable symbolic array: conversions applied before the expansion are seen). Where the smoothing fractions use up the whole gap the two shifted balance points are one value (no regime choice decided by rounding). Real-analysis facts about the smoothed curve are not decided.",
                 tech="abstract interpretation on dual numbers (representative value x sympy expression) over the exhaustive order/zero-pattern domain: kernel, wrappers, smoothing (incl. exact-tie identity); recording stand-ins for the load decomposition (own AST interpreter)", ref="4/C11, 9.8, 9.10"),
     "C12": dict(text="Bounds tables agree position-by-position with coefficient order, objective arity/ordering, declared model type <=> fields present, recorded temperature limits, scored-vs-stored pipeline order, read-back wrappers reorder like the scoring kernel. Optimiser behaviour and finiteness are not decided.",
                 tech="table agreement (ast) + abstract interpretation: bounds-preparation helpers on representative bound tables (one row per side of every guard at every slope/smoothing position), kernel wrappers on dual numbers, evaluators on recording stand-ins", ref="4/C12, 9.8, 9.9"),
-    "C13": dict(text="Literal split options are set partitions, routing is the conjunction of season and day membership with a consistent key grammar, the unsplit model is always kept, each allow-flag bans its own split, strict arg-min idiom, selection-criteria exhaustive. The combination generator's output is not decided.",
+    "C13": dict(text="Literal split options are set partitions, routing is the conjunction of season and day membership with a consistent key grammar, the unsplit model is always kept, each allow-flag bans its own split, strict arg-min idiom, selection-criteria exhaustive. A reloaded model is constructed with the stored settings, so its routing tables are the stored ones (R13.7). The combination generator's output is not decided.",
                 tech="interpretation (own AST interpreter) of the combination generator/trimmer over all flag x Gaussian x data scenarios, of _meter_segment routing, of the arg-min, and of selection_criteria on symbolic scalars for every enum member; the constructor interpreted for the split vocabulary; effect analysis over the class hierarchy (vocabulary is per model); row-set frames for the prediction loop", ref="4/C13, 9.8, 9.9, 9.10"),
     "C14": dict(text="Census of every settings field (default, developer flag, constraints) against approved values and two independent in-repo oracles; the developer-mode lock is wired on every path and recurses; configuration is frozen and keys/values are normalised for every spelling class; the published cross-field rules are enforced exactly; internal escalations enumerated. Exhaustive over all declared fields.",
                 tech="field census (literal evaluation) + CFG reachability + abstract interpretation (own AST interpreter) of the recursive checker over all field kinds, of every after-validator on a boundary grid against the published cross-field rules, and of the key/value normalisers over spelling classes", ref="4/C14, 9.8, 9.10"),
